@@ -2,6 +2,7 @@ import Driver.Codec
 import Rcgen.Spec.Props
 import Rcgen.Model.Pem
 import Rcgen.Spec.Pem
+import Rcgen.Model.CsrParse
 /- line-protocol driver: one request per line, one response per line -/
 namespace Driver
 open Rcgen Rcgen.Model Sexp
@@ -186,6 +187,13 @@ def handle (op : String) (args : List Sexp) : R Sexp := do
         match importCa crypto c with
         | .ok p => pure (.list [.atom "ok", encParams p])
         | .error e => pure (.list [.atom "err", .atom (errName e)])
+  | "parse-csr", [cfg, p521, sigok, der] => do
+    let crypto := (← cfg.asAtom) != "nocrypto"
+    let ok ← sigok.asBool
+    match parseCsr (← p521.asBool) crypto (fun _ _ _ _ => ok) (← der.asBytes) with
+    | .ok r => pure (.list [.atom "ok", encParams r.params,
+        .list [.atom "key", .atom (algName r.key.alg), ofBytes r.key.raw]])
+    | .error e => pure (.list [.atom "err", .atom (errName e)])
   | "spki", [k] => do pure (ofBytes (spkiDer (← decKey k)))
   | "sha", [k, b] => do
     let b ← b.asBytes
